@@ -448,6 +448,7 @@ let run_c03 ic =
 let c04_clause_name = function
   | WUnique -> "names-unique" | WRelative -> "names-relative" | WDotPrefix -> "dot-prefix" | WNoDotDot -> "no-dotdot"
   | WDirSlash -> "dir-slash" | WParents -> "parents-precede" | WStruct -> "structure" | WOrder -> "member-order"
+  | WEmptyName -> "member-without-a-name"
 
 let run_c04 ic =
   let n = ref 0 and n_dis = ref 0 and n_fail = ref 0 and n_err = ref 0 in
@@ -475,8 +476,13 @@ let run_c04 ic =
             | Err _ -> false) in
         if not agree then incr n_dis;
         if clauses <> [] then incr n_fail;
+        (* known finding: apk / archlinux write the root directory under the empty name - and nothing else is wrong *)
+        let kf = if agree && clauses = [WEmptyName] && (f = FApk || f = FArch)
+                    && List.length (List.filter (fun o -> o.o_path = "") c.pents) = 1
+                    && List.exists (fun o -> o.o_path = "" && o.o_kind = "dir") c.pents
+          then ["root-directory-member-without-name"] else [] in
         if clauses <> [] || not agree then
-          report c.id agree (List.sort_uniq compare (List.map c04_clause_name clauses)) []
+          report ~kf c.id agree (List.sort_uniq compare (List.map c04_clause_name clauses)) []
             (List.map (fun (k, _) -> "structure fact false: " ^ k) bad @ (if install_ok then [] else [".INSTALL presence does not match configured scripts"])));
   Printf.printf "SUMMARY cases=%d disagreements=%d impl_failures=%d impl_errors=%d\n" !n !n_dis !n_fail !n_err
 
